@@ -1,11 +1,10 @@
 """C06: `lentil.field._merge_slices` — the per-field slice of the general (non-origin) branch.
 
 The loop body `frmin, ... = field.extent; row = slice(frmin-rmin, frmax-rmin+1); col = slice(fcmin-cmin, fcmax-cmin+1)` is
-translated as a function of the bounding box (`rmin, rmax, cmin, cmax = boundary(fields)`) and one field extent. The hand
-model `Lentil.mergeL` (Model/Field.lean) writes the same closed form in its guard; `Props/C06.merge_slices_spec` proves the
-generated definition equal to it and in range, so a change of `_merge_slices` breaks that theorem."""
+translated as a function of the bounding box (`rmin, rmax, cmin, cmax = boundary(fields)`) and one field extent. `Lentil.mergeL` (Model/Field.lean) addresses its members through this generated definition (`Gen.mergeSlice`), so a change of
+`_merge_slices` flows into `merge_emb`; `Props/C06.merge_slices_spec` states its closed form and that it is in range."""
 import ast
-from py2lean import V, Refuse
+from py2lean import V, S, Refuse
 
 def _merge_slices_step(tr, stmts):
     ifs = [s for s in stmts if isinstance(s, ast.If)]
@@ -19,6 +18,95 @@ def _merge_slices_step(tr, stmts):
     if ast.unparse(body[-1]).strip() != 'out.append((row, col))': raise Refuse('_merge_slices: append changed')
     return body[:-1], lambda env: V([env['row'], env['col']])
 
+class _Subst(ast.NodeTransformer):
+    """replace sub-expressions (matched by their unparsed text) by fresh integer parameter names / comparisons"""
+    def __init__(self, table): self.table = table; self.hits = set()
+    def visit(self, node):
+        if isinstance(node, ast.expr):
+            t = ast.unparse(node)
+            if t in self.table:
+                self.hits.add(t)
+                return ast.parse(self.table[t], mode='eval').body
+        return super().visit(node)
+
+def _test(pick, table=None, what=''):
+    """block hook: translate the TEST expression of the `if` statement chosen by `pick(stmts)`; `table` maps opaque
+    sub-expressions (e.g. `len(fields)`) to integer parameters, every entry must occur"""
+    def hook(tr, stmts):
+        node = pick(stmts)
+        if not isinstance(node, ast.If): raise Refuse(f'{what}: if-statement not found')
+        test = node.test
+        if table:
+            sub = _Subst(table); test = ast.fix_missing_locations(sub.visit(ast.parse(ast.unparse(test), mode='eval').body))
+            if sub.hits != set(table): raise Refuse(f'{what}: test changed: {ast.unparse(node.test)[:80]}')
+        return [], lambda env: tr.expr(test, env)
+    return hook
+
+def _first_if(stmts):
+    ifs = [s for s in stmts if isinstance(s, ast.If)]
+    return ifs[0] if ifs else None
+
+def _overlap_many(stmts):
+    """overlap(): else-branch `fields = _reduce(fields); if len(fields) > 1: return False else: return True`"""
+    top = _first_if(stmts)
+    if top is None or len(top.orelse) != 2 or ast.unparse(top.orelse[0]).strip() != 'fields = _reduce(fields)': raise Refuse('overlap: many-branch changed')
+    node = top.orelse[1]
+    if not (isinstance(node, ast.If) and ast.unparse(node.body).strip() == 'return False' and ast.unparse(node.orelse).strip() == 'return True'):
+        raise Refuse('overlap: many-branch returns changed')
+    return node
+
+def _overlap_pair(stmts):
+    top = _first_if(stmts)
+    if top is None or ast.unparse(top.body).strip() != 'return lentil.extent.intersect(fields[0].extent, fields[1].extent)':
+        raise Refuse('overlap: pair branch changed')
+    return top
+
+def _reduce_merges(stmts):
+    """reduce(): `for f in fields: if len(f['field']) > 1: out.append(_merge(f['field'])) else: out.append(f['field'][0])`"""
+    loops = [s for s in stmts if isinstance(s, ast.For)]
+    if len(loops) != 1 or ast.unparse(loops[0].target) != 'f' or ast.unparse(loops[0].iter) != 'fields' or len(loops[0].body) != 1:
+        raise Refuse('reduce: loop changed')
+    node = loops[0].body[0]
+    if not (isinstance(node, ast.If) and ast.unparse(node.body).strip() == "out.append(_merge(f['field']))"
+            and ast.unparse(node.orelse).strip() == "out.append(f['field'][0])"):
+        raise Refuse('reduce: branches changed')
+    return node
+
+def _merge_refuse(stmts):
+    top = _first_if(stmts)
+    if top is None or not isinstance(top.body[0], ast.Raise) or top.orelse: raise Refuse('merge: refusal changed')
+    rest = [s for s in stmts if not isinstance(s, (ast.If, ast.Expr))]
+    if len(rest) != 1 or ast.unparse(rest[0]).strip() != 'return _merge((a, b))': raise Refuse('merge: accepted branch changed')
+    return top
+
+def _disjoint_step(tr, stmts):
+    """structural recogniser for `_disjoint`: scan `combinations(range(len(fields)), 2)` in order; on the first intersecting
+    pair (m, n): extend group m by group n, recompute its extent with `boundary`, pop n, restart; else return fields.
+    Emits the constants the model depends on: (keep, drop, restart) = (0 for m / 1 for n, …, 1)."""
+    loops = [s for s in stmts if isinstance(s, ast.For)]
+    tail = [s for s in stmts if not isinstance(s, (ast.For, ast.Expr))]
+    if len(loops) != 1 or len(tail) != 1 or ast.unparse(tail[0]).strip() != 'return fields': raise Refuse('_disjoint: shape changed')
+    lp = loops[0]
+    if ast.unparse(lp.target) != '(m, n)' or ast.unparse(lp.iter) != 'combinations(range(len(fields)), 2)' or len(lp.body) != 1:
+        raise Refuse('_disjoint: pair scan changed')
+    node = lp.body[0]
+    if not isinstance(node, ast.If) or ast.unparse(node.test) != "lentil.extent.intersect(fields[m]['extent'], fields[n]['extent'])":
+        raise Refuse('_disjoint: pair test changed')
+    body = [ast.unparse(x).strip() for x in node.body]
+    idx = {'m': 0, 'n': 1}
+    import re
+    pats = [r"fields\[(m|n)\]\['field'\]\.extend\(fields\[(m|n)\]\['field'\]\)", r"fields\[(m|n)\]\['extent'\] = boundary\(fields\[(m|n)\]\['field'\]\)",
+            r"fields\.pop\((m|n)\)", r"return _disjoint\(fields\)"]
+    if len(body) != 4: raise Refuse('_disjoint: merge step has %d statements' % len(body))
+    ms = [re.fullmatch(pt, b) for pt, b in zip(pats, body)]
+    if not all(ms): raise Refuse('_disjoint: merge step changed: ' + '; '.join(body)[:120])
+    keep, src = ms[0].group(1), ms[0].group(2)
+    if ms[1].group(1) != ms[1].group(2): raise Refuse('_disjoint: extent recomputed from another group')
+    vals = [idx[keep], idx[src], idx[ms[1].group(1)], idx[ms[2].group(1)]]
+    return [], lambda env: V([S(f'({v} : Int)', const=v) for v in vals])
+
+_SZ = ('attr', {'size': 'int'})
+_OFF = ('attr', {'offset': 'pair'})
 FIELDMERGE = {
     '_merge_slices#step': {'py_name': '_merge_slices', 'lean_name': 'mergeSlice',
                            'params': [('rmin', 'int'), ('rmax', 'int'), ('cmin', 'int'), ('cmax', 'int'),
@@ -26,6 +114,29 @@ FIELDMERGE = {
                            'block': _merge_slices_step},
 }
 
+FIELDDISPATCH = {
+    # Field.__mul__: `if self.size == 1 and other.size == 1:` -> _mul_scalar, else _mul_array
+    '__mul__#both_one': {'py_name': '__mul__', 'lean_name': 'mulBothOne', 'params': [('self', _SZ), ('other', _SZ)],
+                         'block': _test(_first_if, what='Field.__mul__')},
+    # Field._mul_scalar: `if np.array_equal(self.offset, other.offset):`
+    '_mul_scalar#same': {'py_name': '_mul_scalar', 'lean_name': 'mulScalarSame', 'params': [('self', _OFF), ('other', _OFF)],
+                         'block': _test(_first_if, what='Field._mul_scalar')},
+    # overlap(): `if len(fields) == 2:` / `if len(fields) > 1: return False`
+    'overlap#pair': {'py_name': 'overlap', 'lean_name': 'overlapIsPair', 'params': [('n', 'int')],
+                     'block': _test(_overlap_pair, {'len(fields)': 'n'}, 'overlap')},
+    'overlap#many': {'py_name': 'overlap', 'lean_name': 'overlapManyFalse', 'params': [('n', 'int')],
+                     'block': _test(_overlap_many, {'len(fields)': 'n'}, 'overlap')},
+    # reduce(): `if len(f['field']) > 1:` -> _merge, else the field itself
+    'reduce#merges': {'py_name': 'reduce', 'lean_name': 'reduceMerges', 'params': [('n', 'int')],
+                      'block': _test(_reduce_merges, {"len(f['field'])": 'n'}, 'reduce')},
+    # merge(): `if enforce_overlap and not overlap((a, b)): raise`   (booleans as 0/1)
+    'merge#refuse': {'py_name': 'merge', 'lean_name': 'mergeRefuses', 'params': [('enf', 'int'), ('ov', 'int')],
+                     'block': _test(_merge_refuse, {'enforce_overlap': 'enf == 1', 'overlap((a, b))': 'ov == 1'}, 'merge')},
+    # _disjoint: (group kept, group whose fields are appended, group whose extent is recomputed, group popped), m = 0, n = 1
+    '_disjoint#step': {'py_name': '_disjoint', 'lean_name': 'disjointStep', 'params': [], 'block': _disjoint_step},
+}
+
 MODULES = [
-    {'name': 'FieldMerge', 'src': 'lentil/field.py', 'sigs': FIELDMERGE, 'props': ['C06'], 'imports': []},
+    {'name': 'FieldDispatch', 'src': 'lentil/field.py', 'sigs': FIELDDISPATCH, 'props': ['C06'], 'imports': []},
+    {'name': 'FieldMerge', 'src': 'lentil/field.py', 'sigs': FIELDMERGE, 'props': ['C06', 'C07', 'C02', 'C03'], 'imports': []},
 ]
